@@ -3,17 +3,9 @@
   identifier denotes the value the value-level machine holds for its slot.
 -/
 import MptModel.Lemmas.IdentLocate
+import MptModel.Impl.IdentAbs
 set_option linter.unusedSimpArgs false
 namespace Mpt.Ident
-
-/-- the value-level operation an operation of the model stands for -/
-def Op.abs : Op → VOp
-  | .new _ => .new
-  | .set k name len => .set k (nameOf name len)
-  | .copy k j => .copy k j
-  | .free k => .end_ k
-  | .tinit j => .clone j
-  | .tfini k => .end_ k
 
 /- ---------- the C string in a terminated buffer ---------- -/
 theorem takeWhile_append_stop {α} (p : α → Bool) (l r : List α) (x : α) (hx : p x = false) :
@@ -209,6 +201,80 @@ theorem compare_value {id : Ident} {h : Heap} {k : Nat} {v : Val} (hd : Denotes 
     constructor
     · intro h0; simp [Err.code] at h0
     · intro h1; unfold cmpEq at h1; simp [hc] at h1
+
+
+/- ---------- mpt_node_next ---------- -/
+theorem cstr_zero_free (b : List Byte) : ∀ x, x ∈ cstr b → x ≠ 0 := by
+  intro x hx
+  unfold cstr at hx
+  induction b with
+  | nil => simp at hx
+  | cons a r ih =>
+    rw [List.takeWhile_cons] at hx
+    by_cases ha : (a != 0) = true
+    · simp only [ha, if_true, List.mem_cons] at hx
+      rcases hx with rfl | hx
+      · simpa using ha
+      · exact ih hx
+    · simp [ha] at hx
+
+theorem cstr_idem (b : List Byte) : cstr (cstr b) = cstr b := by
+  unfold cstr
+  induction b with
+  | nil => rfl
+  | cons a r ih =>
+    rw [List.takeWhile_cons]
+    by_cases ha : (a != 0) = true
+    · simp only [ha, if_true, List.takeWhile_cons]
+      rw [ih]
+    · simp [ha]
+
+/-- the name test only looks at the C string in the buffer -/
+theorem nextMatch_cstr (id : Ident) (h : Heap) (b : List Byte) :
+    nextMatch id h (some (b ++ [0])) = nextMatch id h (some (cstr b ++ [0])) := by
+  unfold nextMatch
+  simp only [strlen_terminated, cstr_idem, Option.getD_some, Nat.add_sub_cancel]
+  rw [List.take_append_of_le_length (cstr_le b), take_cstr, List.take_left' rfl]
+
+/-- the name test of `mpt_node_next` against `cmpEq`, for every C string operand -/
+theorem nextMatch_value {id : Ident} {h : Heap} {k : Nat} {v : Val} (hd : Denotes id h k v) (b : List Byte) :
+    nextMatch id h (some (b ++ [0])) = .ok (cmpEq v (cstr b)) := by
+  by_cases hc : v.charset = utf8
+  · have hst : v.stored = v.bytes ++ [0] := by simp [Val.stored, hc]
+    have hh : Holds id h k 1 (v.bytes ++ [0]) := by
+      have := hd
+      unfold Denotes at this
+      rw [hst, hc] at this
+      exact this
+    rw [nextMatch_cstr, nextMatch_text hh (cstr b) (cstr_zero_free b)]
+    congr 1
+    unfold cmpEq
+    by_cases he : cstr b = v.bytes
+    · simp [he, hc]
+    · have : ¬ v.bytes = cstr b := fun h' => he h'.symm
+      simp [he, this]
+  · have hcs : id.charset ≠ 1 := by rw [hd.cs]; exact hc
+    unfold nextMatch cmpEq
+    simp [hcs, hc, pure, Except.pure]
+
+/-- `mpt_node_next` over a node list finds the first node from the current one on whose name is the C string -/
+theorem nodeNext_spec {nodes : List (Ident × Nat × Val)} {h : Heap}
+    (hd : ∀ n, n ∈ nodes → Denotes n.1 h n.2.1 n.2.2) (b : List Byte) (i : Nat) :
+    ∃ r, nodeNext h (some (b ++ [0])) (nodes.map (·.1)) i = .ok r ∧
+      walkS (cstr b) 1 (nodes.map (·.2.2)) 1 (i : Int) = r.map Int.ofNat := by
+  induction nodes generalizing i with
+  | nil => exact ⟨none, rfl, rfl⟩
+  | cons n rest ih =>
+    have hhead := hd n (by simp)
+    have htail : ∀ m, m ∈ rest → Denotes m.1 h m.2.1 m.2.2 := fun m hm => hd m (by simp [hm])
+    simp only [List.map_cons, nodeNext, walkS, bind, Except.bind, nextMatch_value hhead b]
+    cases cmpEq n.2.2 (cstr b)
+    · simp only [Bool.false_eq_true, if_false]
+      obtain ⟨r, hr, hw⟩ := ih htail (i + 1)
+      refine ⟨r, hr, ?_⟩
+      rw [← hw]; congr 1
+    · simp only [if_true, Nat.le_refl]
+      exact ⟨some i, rfl, rfl⟩
 
 /- ---------- agreement of the model system with the value-level collection ---------- -/
 structure Agree (s : Sys) (sp : Vals) : Prop where
